@@ -343,6 +343,39 @@ def run(ctx):
                 viol.append({"what": "shape map with options %s, threshold %s, %s raised %s: %s" % ({k: v for k, v in kw.items() if v}, th, fmt, r[1], r[2]),
                              "where": r[3] if len(r) > 3 else "", "shape_map": sm, "nt": to_nt(g)})
                 break
+    # ---------------- (b6) results of more than 5000 lines (the serialisers write through a 5000-line buffer), to a string and to a file
+    import tempfile, os
+    stats["big_output_calls"] = 0
+    nbig = 900 if ctx.tier == "quick" else 2500
+    bigg = []
+    for k in range(nbig):
+        bigg += [(I('big%d' % k), RDF_TYPE, I('Big%d' % k)), (I('big%d' % k), EX + 'p%d' % (k % 7), L('v')), (I('big%d' % k), EX + 'q', I('big%d' % ((k + 1) % nbig)))]
+    bnt = to_nt(bigg)
+    for fmt in (C.SHEXC, C.SHACL_TURTLE):
+        for sink in ('string', 'file'):
+            fd, opath = tempfile.mkstemp(prefix="verif_c04_", suffix=".out")
+            os.close(fd)
+            try:
+                def go():
+                    sh_ = Shaper(raw_graph=bnt, input_format=C.NT, all_classes_mode=True)
+                    if sink == 'string':
+                        return sh_.shex_graph(string_output=True, output_format=fmt)
+                    sh_.shex_graph(output_file=opath, output_format=fmt)
+                    return open(opath, encoding="utf-8").read()
+                box = {}
+                r = call(lambda: box.setdefault('t', go()))
+                stats["big_output_calls"] += 1
+                stats["pipeline_calls"] += 1
+                if r is not None:
+                    stats["exceptions"][r[1]] = stats["exceptions"].get(r[1], 0) + 1
+                    viol.append({"what": "a result of %d shapes (more than 5000 lines) written to a %s, %s, raised %s: %s" % (nbig, sink, fmt, r[1], r[2]),
+                                 "where": r[3] if len(r) > 3 else "", "big_output": {"classes": nbig, "sink": sink, "format": fmt}})
+                elif fmt == C.SHEXC and box.get('t', '').count("\n") < 5000:
+                    viol.append({"what": "a result of %d shapes written to a %s has only %d lines" % (nbig, sink, box.get('t', '').count("\n")),
+                                 "big_output": {"classes": nbig, "sink": sink, "format": fmt}})
+            finally:
+                if os.path.exists(opath):
+                    os.remove(opath)
     # ---------------- (c) other accepted configurations: every input syntax, shape maps, empty target list
     import rdflib
     stats["syntax_calls"] = {}
